@@ -26,6 +26,15 @@ SERVICE_ASSUMPTIONS = [
 ]
 
 
+def anchor_files(pid):
+    """the source files a property is anchored in (properties.jsonl), generated protobuf code excluded"""
+    for l in open(os.path.join(core.VERIF, "properties.jsonl")):
+        p = json.loads(l)
+        if p["id"] == pid:
+            return [f for f in p["anchors"]["files"] if not f.endswith(".pb.go")]
+    return []
+
+
 def S(profile, quick, thorough, oracles_, **kw):
     return dict(profile=profile, quick=quick, thorough=thorough, oracles=oracles_, **kw)
 
@@ -36,7 +45,7 @@ PROPS = {
     "C02": dict(lean=["Orda.Props.C02"], rule="non-trivial: ≥2 replicas issued operations on the same key/position concurrently (a delivery happened after a local call); distinct command sequences",
                 slices=[S("conf", 500, 8000, ["corr", "spec", "converge"])], assumptions=REPLICA_ASSUMPTIONS),
     "C03": dict(lean=["Orda.Props.C03"], rule="non-trivial: the single-replica history contains at least one refused (invalid) call and one accepted call; distinct command sequences",
-                slices=[S("single", 400, 6000, ["corr", "spec", "err_noop", "no_panic"])], assumptions=REPLICA_ASSUMPTIONS[:1]),
+                slices=[S("single", 400, 6000, ["corr", "spec", "plain_doc", "err_noop", "no_panic"])], assumptions=REPLICA_ASSUMPTIONS[:1]),
     "C04": dict(lean=["Orda.Props.C04"], rule="non-trivial: concurrent inserts or an insert next to a tombstone were delivered; every step observed on the acting replica (full node sequence incl. tombstones)",
                 slices=[S("order", 300, 5000, ["corr", "list_order", "converge", "spec"])], assumptions=REPLICA_ASSUMPTIONS),
     "C09": dict(lean=["Orda.Props.C09"], rule="non-trivial: the history contains a failing transaction after ≥1 earlier operation, or a mutated remote unit; distinct command sequences",
@@ -206,11 +215,37 @@ def run_slices(pid, P, tier, seed, scratch, cov, distinct, log):
 def replay(pid, P, path, scratch, log):
     r = json.load(open(path))
     if r.get("kind") == "proof-obligation-broken":
-        b = core.build(P["lean"], need_go=False, log=log)
-        print("replay: lake build of %s -> %s" % (P["lean"], "ok" if b.lean_ok else "FAILS"))
+        mods = list(P["lean"]) + ["Orda.Shape." + pid]
+        b = core.build(mods, need_go=False, log=log)
+        print("replay: lake build of %s -> %s" % (mods, "ok" if b.lean_ok else "FAILS %s" % b.failed_modules))
+        if not b.lean_ok and ("Orda.Shape." + pid) in b.failed_modules:
+            for f, fn, d in core.shape_diff(anchor_files(pid))[:12]:
+                print("changed: %s %s\n%s" % (f, fn, d))
         print(b.lean_log[-2000:] if not b.lean_ok else b.gofacts_msg)
         return 0 if b.lean_ok and "UNTRANSLATABLE" not in b.gofacts_msg else 1
     b = core.build(P["lean"], need_go=True, log=log)
+    hdr = r["trace"][0] if r.get("trace") else {}
+    if hdr.get("k") in ("scase", "rtcase", "conccase", "enccase"):
+        # service-level (and special) histories: every case is generated from (profile, seed, case id) alone, so the
+        # recorded case is executed again on the implementation.  Client ids are random nanoids drawn by the real code
+        # (they break timestamp ties) and the server works with goroutines: up to 12 executions.
+        cid = int(hdr.get("id", 0))
+        fn = oracles.ORACLES.get(r.get("oracle", "corr"), oracles.corr)
+        extra = next((sl.get("extra", ()) for sl in P["slices"] if sl["profile"] == r["profile"]), ())
+        for attempt in range(12):
+            lines, _, err = core.run_slice(r["profile"], cid + 1, int(r["seed"]), scratch, extra=extra, start=cid)
+            if lines is None:
+                print("replay: harness failed", str(err)[-500:])
+                return 2
+            for case in oracles.split_cases(lines):
+                fs = fn(case)
+                if fs:
+                    print("replay %d: %s fails at step %d of case %d (profile %s, seed %s): %s" % (attempt, r.get("oracle"), fs[0]["step"], cid, r["profile"], r["seed"], fs[0]["what"]))
+                    print(json.dumps(fs[0]["detail"])[:1500])
+                    print("replay: FAILS (violation reproduced)")
+                    return 1
+        print("replay: passes (12 executions of case %d, profile %s, seed %s)" % (cid, r["profile"], r["seed"]))
+        return 0
     tr = os.path.join(scratch, "replay.in")
     with open(tr, "w") as f:
         for c in r["trace"]:
